@@ -529,8 +529,114 @@ func check(cs Case, c *vcommon.Ctx) *vcommon.Failure {
 	return nil
 }
 
+// ---------- errors raised inside a nested load keep the nested source's position ----------
+
+type Nested struct {
+	Kind  string   `json:"kind"`  // failing form, closed (no free variables)
+	Lead  string   `json:"lead"`  // text before the form in the nested source ("" puts it at offset 0)
+	Seps  []string `json:"seps"`
+	Outer string   `json:"outer"` // how the loading form is reached
+}
+
+var nestedKinds = []string{"error", "type", "arity", "unbound", "arg-of-call", "unbound-head", "nested-deeper"}
+var nestedLeads = []string{"", "", "", " ", "\n", "  \n ", "; c\n", "\t"}
+var nestedOuter = []string{"top", "in-function", "rethrow", "rethrow-in-function", "let", "twice"}
+
+func nestedForm(kind string) gen.Val {
+	switch kind {
+	case "error":
+		return L(S("error"), QS("boom"), I(1))
+	case "type":
+		return L(S("car"), I(5))
+	case "arity":
+		return L(S("cons"), I(1))
+	case "unbound":
+		return S("no-such-var")
+	case "unbound-head":
+		return L(S("no-such-fn"), I(1))
+	case "nested-deeper":
+		return L(S("let"), L(L(S("t1"), I(1))), L(S("list"), S("t1")), L(S("car"), S("t1")))
+	default:
+		return L(S("list"), I(1), L(S("car"), I(5)), I(3))
+	}
+}
+
+func checkNested(n Nested, c *vcommon.Ctx) *vcommon.Failure {
+	form := nestedForm(n.Kind)
+	// the lead is the first separator the renderer writes
+	seps := append([]string{n.Lead}, n.Seps...)
+	inner, ipos := renderLayout([]gen.Val{form}, seps)
+	inner = strings.TrimRight(inner, "\n")
+	// reference: which node fails
+	in := refint.New()
+	p := 0
+	_, rerr, abort := in.Run([]*refint.V{refint.FromVal(form, &p)})
+	if abort != "" || in.Unsupported != "" || rerr == nil {
+		c.Class("skip/reference")
+		return nil
+	}
+	want, ok := ipos[rerr.Node]
+	if !ok {
+		return vcommon.Failf("harness/no-node", "no position for node %d in %q", rerr.Node, inner)
+	}
+	c.Class("kind/" + n.Kind)
+	c.Class("outer/" + n.Outer)
+	if want.Pos == 0 {
+		c.Class("failing-form-at-offset-0")
+	}
+	load := fmt.Sprintf("(load-string %q)", inner)
+	var src string
+	switch n.Outer {
+	case "in-function":
+		src = "(defun ld (x) (list x) " + load + ")\n(list (ld 1))"
+	case "rethrow":
+		src = "(handler-bind ((condition (lambda (c &rest d) (list c) (rethrow)))) " + load + ")"
+	case "rethrow-in-function":
+		src = "(defun ld (x) " + load + ")\n(list 1\n  (handler-bind ((condition (lambda (c &rest d) (rethrow)))) (ld 1)))"
+	case "let":
+		src = "(let ((k 1))\n  (list k)\n  " + load + ")"
+	case "twice":
+		src = fmt.Sprintf("(load-string %q)", load)
+		// the inner text sits two loads deep; positions are those of the innermost text
+	default:
+		src = load
+	}
+	c.NonTrivial(src)
+	c.Note(src)
+	for _, dbg := range []bool{false, true} {
+		rt := vcommon.NewRuntime(vcommon.Cfg{NoStdlib: true, MaxSteps: 200000, Debugger: dbg})
+		out := rt.Load(src)
+		if !out.IsErr || out.Cond != rerr.Cond {
+			return vcommon.Failf("nested/condition", "expected condition %q, got %s (%s)\n%s", rerr.Cond, out.Key(), out.Msg, src)
+		}
+		loc, ok := out.Val.Source()
+		if !ok {
+			return vcommon.Failf("nested/location-missing/"+n.Kind, "the error carries no location\n%s", src)
+		}
+		if loc.File == "test.lisp" {
+			return vcommon.Failf("nested/location-in-loading-source/"+n.Kind, "the error raised inside the nested source is located in the LOADING source at %d:%d; the failing form is at %d:%d of the nested text %q (debugger=%v)\n%s", loc.Line, loc.Col, want.Line, want.Col, inner, dbg, src)
+		}
+		if got := (Loc{loc.Pos, loc.Line, loc.Col}); got != want {
+			return vcommon.Failf("nested/location-wrong-form/"+n.Kind, "located at %s:%d:%d (offset %d); the failing form is at %d:%d (offset %d) of the nested text %q (debugger=%v)\n%s", loc.File, got.Line, got.Col, got.Pos, want.Line, want.Col, want.Pos, inner, dbg, src)
+		}
+	}
+	return nil
+}
+
+func genNested() *rapid.Generator[Nested] {
+	return rapid.Custom(func(t *rapid.T) Nested {
+		return Nested{
+			Kind:  rapid.SampledFrom(nestedKinds).Draw(t, "kind"),
+			Lead:  rapid.SampledFrom(nestedLeads).Draw(t, "lead"),
+			Seps:  rapid.SliceOfN(rapid.SampledFrom(sepPool), 4, 16).Draw(t, "seps"),
+			Outer: rapid.SampledFrom(nestedOuter).Draw(t, "outer"),
+		}
+	})
+}
+
 func TestCheck(t *testing.T) {
 	vcommon.Main(t, "C18",
 		vcommon.S("failing-programs", 60000, 1500000, genCase(), check),
+		vcommon.S("nested-load", 6000, 150000, genNested(), checkNested),
 	)
 }
